@@ -29,6 +29,11 @@ fn props() -> Vec<PropDef> {
         arena_sensitive: false,
     });
     v.push(PropDef {
+        id: "C14",
+        run: props::c14::run,
+        arena_sensitive: false,
+    });
+    v.push(PropDef {
         id: "C18",
         run: props::c18::run,
         arena_sensitive: false,
@@ -227,6 +232,21 @@ fn main() {
             }
             let report = supervisor::run_batch(cfg);
             std::process::exit(report.exit_code);
+        }
+        "dump-lib" => {
+            let dir = PathBuf::from(&args[2]);
+            let _ = std::fs::create_dir_all(&dir);
+            for p in corpus::library() {
+                let f = format!("{}{}.wasm", p.name.replace(':', "_"), p.version.map(|v| format!("@{v}")).unwrap_or_default());
+                std::fs::write(dir.join(f), &p.bytes).unwrap();
+            }
+        }
+        "print-wat" => {
+            let bytes = std::fs::read(&args[2]).expect("file");
+            match wasmprinter::print_bytes(&bytes) {
+                Ok(t) => println!("{t}"),
+                Err(e) => eprintln!("cannot print: {e:#}"),
+            }
         }
         "corpus" => {
             print!("{}", corpus::describe());
